@@ -937,6 +937,86 @@ theorem breaker_readmits (b : Breaker) (nowMs : Int) (a : String) :
   · intro hg
     simp [Breaker.canQuery, hg]
 
+/-- an attempt that ended for the request tree's own reasons. -/
+def attemptRequestLocal : Attempt → Prop
+  | .refused c => c = .workLimit ∨ c = .attemptLimit ∨ c = .probeLimit ∨ c = .maxRecursion
+  | .endedBefore => True
+  | .endedDuring => True
+  | _ => False
+
+/-- **Only authority-side evidence reaches the breaker.** An attempt counts as
+a failure of the address exactly when the authority stayed silent / the
+connection failed (or `exchange` returned an error that is none of the
+request-tree refusals) while the request was still live; a reply of ANY rcode
+counts as a success; an attempt refused by the tree's own limits or cut short
+by cancellation / the client's deadline counts as nothing. -/
+theorem breaker_fed_only_by_authority_evidence (at_ : Attempt) :
+    (attemptRequestLocal at_ → breakerFeed at_ = .nothing) ∧
+    (∀ rc, at_ = .reply rc → breakerFeed at_ = .success) ∧
+    (breakerFeed at_ = .failure → at_ = .silent ∨ ∃ c, at_ = .refused c ∧ ¬ attemptRequestLocal (Attempt.refused c)) := by
+  refine ⟨?_, ?_, ?_⟩
+  · intro h
+    cases at_ with
+    | refused c => simp only [attemptRequestLocal] at h; simp [breakerFeed, h]
+    | endedBefore => rfl
+    | endedDuring => rfl
+    | reply _ => exact h.elim
+    | silent => exact h.elim
+  · intro rc h; subst h; rfl
+  · intro h
+    cases at_ with
+    | reply _ => simp [breakerFeed] at h
+    | silent => exact Or.inl rfl
+    | refused c =>
+      right
+      refine ⟨c, rfl, ?_⟩
+      intro hl
+      simp only [attemptRequestLocal] at hl
+      simp [breakerFeed, hl] at h
+    | endedBefore => simp [breakerFeed] at h
+    | endedDuring => simp [breakerFeed] at h
+
+theorem feed_keeps_closed (b : Breaker) (nowMs : Int) (a : String) (at_ : Attempt)
+    (hf : breakerFeed at_ ≠ .failure) (hc : ∀ sf, b.get a = some sf → sf.disabled = false) :
+    ∀ sf, (b.feed nowMs a at_).get a = some sf → sf.disabled = false := by
+  unfold Breaker.feed
+  cases hfe : breakerFeed at_ with
+  | failure => exact absurd hfe hf
+  | nothing => exact hc
+  | success =>
+    simp only
+    unfold Breaker.recordSuccess
+    cases hg : b.get a with
+    | none => intro sf h; rw [hg] at h; cases h
+    | some sf0 =>
+      intro sf h
+      rw [bget_put_self] at h
+      cases h; rfl
+
+/-- **Request-local outcomes never open the breaker.** However many attempts
+against an address are refused by request trees' own limits, cancelled, cut
+short by client deadlines — or answered — the address is still asked: no
+sequence of such attempts makes `canQuery` refuse it (so `lookup` never reports
+"all servers failed" for a zone on that account). -/
+theorem local_outcomes_never_open_the_breaker (a : String) (ats : List (Int × Attempt))
+    (hl : ∀ p ∈ ats, breakerFeed p.2 ≠ .failure) (nowMs : Int) :
+    ((ats.foldl (fun (b : Breaker) (p : Int × Attempt) => Breaker.feed b p.1 a p.2) ([] : Breaker)).canQuery nowMs a).2 = true := by
+  have key : ∀ (ats : List (Int × Attempt)) (b : Breaker), (∀ p ∈ ats, breakerFeed p.2 ≠ .failure) →
+      (∀ sf, b.get a = some sf → sf.disabled = false) →
+      ∀ sf, (ats.foldl (fun (b : Breaker) (p : Int × Attempt) => Breaker.feed b p.1 a p.2) b).get a = some sf → sf.disabled = false := by
+    intro ats
+    induction ats with
+    | nil => intro b _ hc; exact hc
+    | cons p rest ih =>
+      intro b hl hc
+      exact ih _ (fun q hq => hl q (List.mem_cons_of_mem _ hq))
+        (feed_keeps_closed b p.1 a p.2 (hl p List.mem_cons_self) hc)
+  have hclosed := key ats [] hl (by intro sf h; simp [Breaker.get] at h)
+  unfold Breaker.canQuery
+  cases hg : (ats.foldl (fun (b : Breaker) (p : Int × Attempt) => Breaker.feed b p.1 a p.2) ([] : Breaker)).get a with
+  | none => rfl
+  | some sf => simp [hclosed sf hg]
+
 /-! ## the kill switch -/
 
 /-- **rfc9520 off is inert.** With the switch off no Store entry point reads
@@ -1246,6 +1326,12 @@ example : ((cbHist5.foldl applyB []).canQuery 1031500 "a").2 = false := by decid
 example : ((cbHist5.foldl applyB []).canQuery 1032500 "a").2 = true := by decide
 example : (((cbHist5 ++ [BOp.ok "a"]).foldl applyB []).canQuery 1002600 "a").2 = true := by decide
 example : (((cbHist5.take 5).foldl applyB []).canQuery 1001600 "a").2 = true := by decide
+
+-- breaker feed: seven client-deadline / attempt-limit outcomes keep the address open; five silences close it
+example : (([(1, Attempt.endedDuring), (2, .refused .attemptLimit), (3, .endedDuring), (4, .endedBefore), (5, .refused .workLimit),
+    (6, .endedDuring), (7, .reply 2)].foldl (fun (b : Breaker) (p : Int × Attempt) => Breaker.feed b p.1 "a" p.2) ([] : Breaker)).canQuery 8 "a").2 = true := by decide
+example : (([(1000, Attempt.silent), (1000, .silent), (1000, .endedDuring), (1000, .silent), (1000, .silent), (1000, .silent)].foldl
+    (fun (b : Breaker) (p : Int × Attempt) => Breaker.feed b p.1 "a" p.2) ([] : Breaker)).canQuery 2000 "a").2 = false := by decide
 
 end Examples
 
